@@ -113,6 +113,17 @@ def sweep_steps(rng, node, nodespec):
                                   'seed': rng.randrange(1 << 30)})
                 acts.append((mname, name))
         acts.append((mname, None))
+    # faults inside the module: it assigns values its own datatype refuses (wrong kind, out of range, too long, NaN),
+    # then a client reads the parameter (and the snapshot of a later `activate` is judged as well)
+    if nodespec is not None:
+        for mname, modobj in node.secnode.modules.items():
+            for attr, pobj in modobj.parameters.items():
+                if not isinstance(pobj.export, str) or pobj.constant is not None:
+                    continue
+                for raw in rng.sample(c04.BAD_RAW, 3):
+                    steps.append({'kind': 'assign', 'spec': '%s:%s' % (mname, attr), 'data': raw, 'script': 'none', 'seed': 1})
+                    steps.append({'kind': 'read', 'spec': '%s:%s' % (mname, pobj.export), 'data': None,
+                                  'script': 'value_valid', 'seed': rng.randrange(1 << 30)})
     for spec in ('zz:value', 'zz'):
         for rk in ('change', 'read', 'do'):
             steps.append({'kind': rk, 'spec': spec, 'data': None if rk != 'change' else 1, 'script': 'none', 'seed': 1})
@@ -153,14 +164,40 @@ def client_verdicts(rng, node, desc, nodespec, rec):
                     pobj.datatype.import_value(payload), previous=pobj.value))[0] == 'ok'
                 dichecks.append({'m': mname, 'a': aname, 'client': cl, 'node': nd, 'payload': canonj(payload)})
             # the cached value, as a client would get it on activation
-            r = c04.oracle_call(lambda: cdt.import_value(json.loads(json.dumps(pobj.export_value()))))
             if pobj.readerror is None:
-                imports.append({'m': mname, 'a': aname, 'ok': r[0] == 'ok', 'value': canonj(pobj.export_value())})
+                text = canonj(pobj.export_value())
+                r = c04.oracle_call(lambda: cdt.import_value(json.loads(text)))
+                imports.append({'m': mname, 'a': aname, 'ok': r[0] == 'ok', 'value': text, 'from': 'cache'})
+    def importable(cdt, text):
+        """the client can take the value over: it is strict JSON and its datatype imports it (import_value = __call__:
+        kind, length, membership; a number the hardware pushed outside min/max is importable by design)"""
+        try:
+            value = json.loads(text, parse_constant=lambda c: (_ for _ in ()).throw(ValueError(c)))
+        except Exception:
+            return False
+        return c04.oracle_call(lambda: cdt.import_value(value))[0] == 'ok'
+
     for st in rec['steps'] if rec else []:
         for em in st['obs']['emits']:
             if em[0] == 'update' and (em[1], em[2]) in clients:
-                r = c04.oracle_call(lambda: clients[(em[1], em[2])].import_value(json.loads(em[3])))
-                imports.append({'m': em[1], 'a': em[2], 'ok': r[0] == 'ok', 'value': em[3]})
+                imports.append({'m': em[1], 'a': em[2], 'ok': importable(clients[(em[1], em[2])], em[3]), 'value': em[3],
+                                'from': 'update'})
+        # the value of a read / change reply
+        if st['req'][0] in ('read', 'change') and st['obs']['reply'][0] in ('reply', 'changed') and st['req'][1]:
+            m, _, a = st['req'][1].partition(':')
+            a = a or ('value' if st['req'][0] == 'read' else 'target')
+            if (m, a) in clients:
+                imports.append({'m': m, 'a': a, 'ok': importable(clients[(m, a)], st['obs']['reply'][1]),
+                                'value': st['obs']['reply'][1], 'from': st['req'][0] + '-reply'})
+    # the snapshot a newly activated connection gets
+    conn = node.connect()
+    node.request(conn, 'activate', None, None)
+    for msg in conn.msgs:
+        em = c04.msg_obs(msg)
+        if em[0] == 'update' and (em[1], em[2]) in clients:
+            imports.append({'m': em[1], 'a': em[2], 'ok': importable(clients[(em[1], em[2])], em[3]), 'value': em[3],
+                            'from': 'snapshot'})
+    node.disconnect(conn)
     return dichecks, imports
 
 
